@@ -102,6 +102,8 @@ finding("C03-negated-loop-in-subshell", "C03", "`( ! while …; do ko; done )` u
         all=["other-divergence", "subshell", "not"], why="bash's own corner (negated compound as the only command of a subshell)")
 finding("C03-err-trap-inside-negated-compound", "C03", "`! while c; do ko; done` with an ERR trap: bash runs the trap after each failing `ko` inside the negated loop, brush suppresses it there and runs it after the loop instead",
         all=["other-divergence", "not"], observed_contains="ERR", why=PINNED + " (same mechanism as C03-err-trap-fires-twice: where Pipeline::execute reports a failure)")
+finding("C03-errexit-after-negated-compound", "C03", "a compound command (`case`, `for`, …) whose status 1 comes from a `!`-negated pipeline inside it makes errexit fire when the compound ends; bash goes on (here: falls through `;&` to the next arm and exits there)",
+        all=["other-divergence", "not"], none=["opts:ERR", "opts:e+ERR", "opts:e+errtrace+ERR"], why="same defect as C03-errexit-negated-group, seen where bash also exits, only later")
 finding("C03-nounset-arith-and-transforms", "C03", "under set -u, arithmetic on an unset variable is a non-fatal error (bash aborts), `${v@a}`/`${v@A}` of unset targets are accepted, `${#v[@]}`/`${!v}` differ, `$!` is accepted when unset",
         all=["nounset"], why=PINNED + " ('Special parameter $! does not error when no background jobs'); the rest needs a uniform unset check in every operator arm")
 
